@@ -200,15 +200,18 @@ Example total_louvain_example :
   (* what the hypotheses exclude, evaluated: an ill-formed shuffle table (the model's own oracle) ... *)
   louvain_partitions Z.eqb Z.ltb 4 27 t_gT true 1 (1 # 10000000)%Q [[0%nat]] =
     Panic "model: shuffle table has no row for this node count" /\
-  (* ... weighted = true with an edge without weight, or with weights 1 and -1 adding up to 0:
-     model-domain sites (no NaN / inf arithmetic in the exact model) ... *)
+  (* ... weighted = true with an edge without weight: a model-domain site (no NaN arithmetic in the
+     exact model) ... *)
   ~ weights_ok t_gN true /\
   louvain_partitions Z.eqb Z.ltb 6 3125 t_gN true 1 (1 # 10000000)%Q t_perms5 = Panic nan_site /\
-  louvain_partitions Z.eqb Z.ltb 6 3125 t_gZ true 1 (1 # 10000000)%Q t_perms5 = Panic modularity_domain_site /\
-  (* ... while other inputs outside the hypotheses just return: negative weights with a non-zero
-     total, a negative resolution *)
-  ~ weights_ok t_gU true /\
-  louvain_partitions Z.eqb Z.ltb 6 3125 t_gU true 1 (1 # 10000000)%Q t_perms5 = Ok [[[1; 7]; [3; 5]; [9]]]%Z /\
+  (* ... a negative weight under weighted = true (all weights real: the hypothesis of
+     [louvain_total_guarded]) is answered by the guard of F23, whether the total is 0 (t_gZ: 1, -1)
+     or not (t_gU); before the repair the model reported a domain site resp. returned levels ... *)
+  ~ weights_ok t_gU true /\ all_real (get_all_edges t_gU) /\ has_negative_edge t_gU /\ has_negative_edge t_gZ /\
+  louvain_partitions Z.eqb Z.ltb 6 3125 t_gZ true 1 (1 # 10000000)%Q t_perms5 = Err InvalidArgument /\
+  louvain_partitions Z.eqb Z.ltb 6 3125 t_gU true 1 (1 # 10000000)%Q t_perms5 = Err InvalidArgument /\
+  louvain_communities Z.eqb Z.ltb 6 3125 t_gU true 1 (1 # 10000000)%Q t_perms5 = Err InvalidArgument /\
+  (* ... and not under weighted = false; a negative resolution just returns *)
   louvain_partitions Z.eqb Z.ltb 6 3125 t_gU false (-1) (1 # 10000000)%Q t_perms5 = Ok [[[3; 7; 5; 1]; [9]]]%Z.
 Proof.
   split; [exact t_gT_WF|]. split.
@@ -225,10 +228,45 @@ Proof.
   split; [vm_compute; reflexivity|].
   split.
   { intros H. destruct (H eq_refl (mkedge 3%Z 7%Z None None)) as (z & Hz & _); [vm_compute; tauto|discriminate]. }
-  split; [vm_compute; reflexivity|]. split; [vm_compute; reflexivity|].
+  split; [vm_compute; reflexivity|].
   split.
   { intros H. destruct (H eq_refl (mkedge 5%Z 7%Z (Some (-1)%Z) None)) as (z & Hz & Hp); [vm_compute; tauto|].
     cbn in Hz. inversion Hz. subst z. lia. }
+  split.
+  { intros e He. vm_compute in He. destruct He as [<-|[<-|[<-|[<-|[<-|[]]]]]]; cbn; eexists; reflexivity. }
+  split.
+  { exists (mkedge 5%Z 7%Z (Some (-1)%Z) None), (-1)%Z. split; [vm_compute; tauto|]. split; [reflexivity|lia]. }
+  split.
+  { exists (mkedge 3%Z 4%Z (Some (-1)%Z) None), (-1)%Z. split; [vm_compute; tauto|]. split; [reflexivity|lia]. }
+  split; [vm_compute; reflexivity|]. split; [vm_compute; reflexivity|].
+  split; vm_compute; reflexivity.
+Qed.
+
+(* F23's input: the undirected star 2-3 (2), 2-5 (2), 2-11 (-1), 2-7 (-2).  Weighted: the guard
+   answers InvalidArgument (the pre-repair implementation did not return); unweighted: levels. *)
+Definition t_gS := t_build [2; 3; 5; 11; 7]%Z t_spU
+  [mkedge 2 3 (Some 2) None; mkedge 2 5 (Some 2) None; mkedge 2 11 (Some (-1)) None; mkedge 2 7 (Some (-2)) None]%Z.
+Lemma t_gS_WF : WF Z.eqb Z.ltb t_gS.
+Proof.
+  apply (t_build_WF [2; 3; 5; 11; 7]%Z t_spU
+    [mkedge 2 3 (Some 2) None; mkedge 2 5 (Some 2) None; mkedge 2 11 (Some (-1)) None; mkedge 2 7 (Some (-2)) None]%Z).
+  vm_compute. reflexivity.
+Qed.
+
+Example louvain_negative_weights_example :
+  WF Z.eqb Z.ltb t_gS /\ all_real (get_all_edges t_gS) /\ has_negative_edge t_gS /\
+  louvain_partitions Z.eqb Z.ltb 6 3125 t_gS true 1 (1 # 10000000)%Q t_perms5 = Err InvalidArgument /\
+  louvain_communities Z.eqb Z.ltb 6 3125 t_gS true 1 (1 # 10000000)%Q t_perms5 = Err InvalidArgument /\
+  (* whatever the fuel and the shuffle table: nothing is computed before the guard *)
+  louvain_communities Z.eqb Z.ltb 0 0 t_gS true 1 (1 # 10000000)%Q [] = Err InvalidArgument /\
+  louvain_partitions Z.eqb Z.ltb 6 3125 t_gS false 1 (1 # 10000000)%Q t_perms5 = Ok [[[2; 7; 5; 11; 3]]]%Z /\
+  louvain_communities Z.eqb Z.ltb 6 3125 t_gS false 1 (1 # 10000000)%Q t_perms5 = Ok [[2; 7; 5; 11; 3]]%Z.
+Proof.
+  split; [exact t_gS_WF|]. split.
+  { intros e He. vm_compute in He. destruct He as [<-|[<-|[<-|[<-|[]]]]]; cbn; eexists; reflexivity. }
+  split.
+  { exists (mkedge 2%Z 11%Z (Some (-1)%Z) None), (-1)%Z. split; [vm_compute; tauto|]. split; [reflexivity|lia]. }
+  split; [vm_compute; reflexivity|]. split; [vm_compute; reflexivity|]. split; [vm_compute; reflexivity|].
   split; vm_compute; reflexivity.
 Qed.
 
